@@ -1,6 +1,8 @@
 package main
 
 import (
+	"sort"
+	"regexp"
 	"fmt"
 	"go/ast"
 	"go/types"
@@ -101,6 +103,13 @@ func (g *Gen) instrCall(f *Frame, v ssa.Value, cc *ssa.CallCommon, ins ssa.Instr
 		for _, a := range cc.Args {
 			args = append(args, g.argOf(f, a))
 		}
+		// a printf wrapper of the repository (it forwards its own format and operands to fmt): the format-string
+		// obligation is the caller's
+		if k, isW := printfWrapper(callee, 0); isW && k < len(cc.Args) && args[k].loc == nil {
+			if !constFormat(cc.Args[k], 0) && !g.forwardsOwnFormat(f, cc.Args[k]) {
+				g.safety(f, fmt.Sprintf("(not (str.contains %s \"%%\"))", args[k].t.S), "format-string", ins.Pos())
+			}
+		}
 		rs := g.callStatic(f, callee, args, nil, ins, false)
 		g.setResults(f, v, sig, rs)
 		return
@@ -140,7 +149,27 @@ func (g *Gen) instrCall(f *Frame, v ssa.Value, cc *ssa.CallCommon, ins ssa.Instr
 		return
 	}
 	g.trusted["dynamic call havocs everything: "+funcKey(f.fn)] = true
+	preSt := f.st
 	g.havocAll(f)
+	// specification counters (ghost("name")) are changed by contracts only: an unknown function value is assumed not
+	// to take part in a ghost protocol
+	if gn := g.ghostNames(); len(gn) > 0 {
+		g.trusted["dynamic call through an unnamed function value leaves the ghost counters of the contracts unchanged"] = true
+		for _, comp := range gn {
+			g.compDecl(comp, "Int")
+			g.set(f.st, comp, g.get(preSt, comp))
+		}
+	}
+	if len(cc.Args) == 1 {
+		// ghost record of the application (see the contract builtin called(fn, x)): set after the havoc, so that it
+		// holds whatever the unknown function did
+		if a := g.val(f, cc.Args[0]); a.Sort == "Iface" || a.Sort == "Int" {
+			comp := "GHC$" + a.Sort
+			g.compDecl(comp, "(Array Int (Array "+a.Sort+" Bool))")
+			cur := g.get(f.st, comp)
+			g.set(f.st, comp, fmt.Sprintf("(store %[1]s %[2]s (store (select %[1]s %[2]s) %[3]s true))", cur, fv.S, a.S))
+		}
+	}
 	g.mayPanic(f, "dyncall")
 	g.setResults(f, v, sig, g.freshResults(f, "dyn", sig))
 }
@@ -706,4 +735,99 @@ func (g *Gen) keptComps(env *Env, c *Contract) []string {
 		}
 	}
 	return out
+}
+
+var ghostNameRe = regexp.MustCompile(`ghost\("([^"]+)"\)`)
+var ghostNamesCache []string
+var ghostNamesDone bool
+
+// ghostNames: the components of all ghost counters mentioned in any contract (sorted).
+func (g *Gen) ghostNames() []string {
+	if ghostNamesDone {
+		return ghostNamesCache
+	}
+	seen := map[string]bool{}
+	scan := func(cs []*Clause) {
+		for _, c := range cs {
+			for _, m := range ghostNameRe.FindAllStringSubmatch(c.Text, -1) {
+				seen["GH$"+sanitize(m[1])] = true
+			}
+		}
+	}
+	for _, c := range g.contracts {
+		scan(c.Requires)
+		scan(c.Ensures)
+		scan(c.Modifies)
+		scan(c.Recovers)
+		for _, l := range c.Loops {
+			scan(l.Invariants)
+		}
+	}
+	for k := range seen {
+		ghostNamesCache = append(ghostNamesCache, k)
+	}
+	sort.Strings(ghostNamesCache)
+	ghostNamesDone = true
+	return ghostNamesCache
+}
+
+var fmtFuncs = map[string]int{"fmt.Errorf": 0, "fmt.Sprintf": 0, "fmt.Printf": 0, "fmt.Fprintf": 1, "fmt.Sscanf": 1, "log.Printf": 0, "log.Fatalf": 0}
+var printfWrapperCache = map[*ssa.Function]int{}
+
+// printfWrapper: fn has a string parameter and a variadic ...interface{} parameter that it passes, unchanged and
+// together, as format and operands to a fmt function (or to another such wrapper). Returns the index of the format
+// parameter among the call arguments.
+func printfWrapper(fn *ssa.Function, depth int) (int, bool) {
+	if k, ok := printfWrapperCache[fn]; ok {
+		return k, k >= 0
+	}
+	res := -1
+	defer func() { printfWrapperCache[fn] = res }()
+	if fn.Blocks == nil || depth > 3 || !fn.Signature.Variadic() {
+		return -1, false
+	}
+	nparams := len(fn.Params)
+	vparam := fn.Params[nparams-1]
+	for _, b := range fn.Blocks {
+		for _, ins := range b.Instrs {
+			ci, ok := ins.(ssa.CallInstruction)
+			if !ok {
+				continue
+			}
+			callee := ci.Common().StaticCallee()
+			if callee == nil || len(ci.Common().Args) == 0 {
+				continue
+			}
+			k, isFmt := fmtFuncs[extName(callee)]
+			if !isFmt {
+				var w bool
+				if k, w = printfWrapper(callee, depth+1); !w {
+					continue
+				}
+			}
+			as := ci.Common().Args
+			if k >= len(as) || as[len(as)-1] != ssa.Value(vparam) {
+				continue
+			}
+			if fp, ok := as[k].(*ssa.Parameter); ok {
+				for i, p := range fn.Params {
+					if p == fp {
+						res = i
+						return res, true
+					}
+				}
+			}
+		}
+	}
+	return -1, false
+}
+
+// forwardsOwnFormat: v is the format parameter of the function being encoded, itself a printf wrapper.
+func (g *Gen) forwardsOwnFormat(f *Frame, v ssa.Value) bool {
+	p, ok := v.(*ssa.Parameter)
+	if !ok {
+		return false
+	}
+	k, isW := printfWrapper(f.fn, 0)
+	return isW && k < len(f.fn.Params) && f.fn.Params[k] == p
 }
